@@ -205,6 +205,35 @@ func c09CheckMethod(c *Ctx, rule, key string, f *ssa.Function, kind string, num 
 				apps = append(apps, t)
 			}
 		}
+		// the tag written as one raw byte — append(scratch[:0], tag) — which is its varint encoding when tag < 0x80: a
+		// pseudo AppendVarint(dst, tag) in front of the value append
+		if len(apps) == 1 {
+			elems := map[string]*Term{}
+			for _, e := range p.Effects {
+				if e.Kind == "store" && e.Addr.Op == "index" && e.Addr.Args[0].unver().Op == "alloc" && e.Addr.Args[1].isConst("0") {
+					elems[e.Addr.Args[0].unver().Key()] = e.Val
+				}
+				if e.Kind == "call" && e.Call.Op == "builtin" && e.Call.Sym == "append" && len(e.Call.Args) == 2 {
+					src := e.Call.Args[1].unver()
+					if src.Op == "slice" && src.Args[0].unver().Op == "alloc" {
+						one := false
+						if al, ok := src.Args[0].unver().V.(*ssa.Alloc); ok {
+							if pt, ok := al.Type().Underlying().(*types.Pointer); ok {
+								if at, ok := pt.Elem().Underlying().(*types.Array); ok && at.Len() == 1 {
+									one = true
+								}
+							}
+						}
+						if tb := elems[src.Args[0].unver().Key()]; one && tb != nil && stripConv(tb).Op == "const" {
+							if v, err := strconv.ParseUint(stripConv(tb).Sym, 0, 64); err == nil && v < 0x80 && stripVers(apps[0].Args[0]).Key() == stripVers(e.Call).Key() {
+								pseudo := mk("call", "protowire.AppendVarint", nil, e.Call.Args[0], mk("const", strconv.FormatUint(v, 10), nil))
+								apps = append([]*Term{pseudo}, apps...)
+							}
+						}
+					}
+				}
+			}
+		}
 		if len(apps) < 2 {
 			found = "fewer than two appends"
 			continue
